@@ -147,6 +147,8 @@ func runC19(cx *Ctx, r *Report) {
 	r.Extra["record_store_accesses"] = nAcc
 	r.check(len(sets) == 1, "who-may-write", "set|0x01", posOfPrims(cx, sets), fmt.Sprintf("exactly one Set on prefix 0x01 (%s)", posOfPrims(cx, sets)), fmt.Sprintf("%d Set sites on the record prefix 0x01 (%s); a second writer can overwrite a stored record", len(sets), posOfPrims(cx, sets)))
 	r.check(len(dels) == 0, "who-may-write", "delete|0x01", posOfPrims(cx, dels), "no Delete on prefix 0x01 anywhere", fmt.Sprintf("%d Delete sites on the record prefix 0x01 (%s)", len(dels), posOfPrims(cx, dels)))
+	var idKeyLocal, idKeySeen, idKeyChain bool
+	var idKeyPos, idKeyFn string
 	if len(sets) >= 1 {
 		p := sets[0]
 		f := p.Fn
@@ -306,7 +308,8 @@ func runC19(cx *Ctx, r *Report) {
 				okRet = true
 			}
 		}
-		r.check(okRet, "id-is-key", "0x01", cx.P.Pos(p.Site.Pos()), "the function returns the very id the stored key was built from", "the id returned by "+shortFn(f)+" is not the value used to build the stored key")
+		idKeyLocal, idKeyPos, idKeyFn = okRet, cx.P.Pos(p.Site.Pos()), shortFn(f)
+		idKeySeen = true
 	}
 	// ---------------- the counter never goes back: every run-time write of 0x02 (outside
 	// genesis import) stores counter+1. A reset (per block, per tx) lets hash(record ||
@@ -467,7 +470,34 @@ func runC19(cx *Ctx, r *Report) {
 			ok = got["Contents"] == "msg.Contents" && got["Creator"] == signers[0] && strings.Contains(got["TxHash"], "TxBytes") && len(got) == 3
 		}
 		r.check(ok, "contents", e.Name, ev.Pos(cx), "stored value is built from the transaction bytes' hash, msg.Contents and the declared signer", "stored record is not built from tx hash, msg.Contents and the declared signer: "+val)
+		// the id handed back up the chain is the id the key was built from, wherever the Set
+		// is spelled (inline, or in a component that takes the entry with its id)
+		if kt := findSub(ev.Args[0], func(t *Term) bool { return t.Op == "call" && strings.HasSuffix(t.Name, "GetRecordKey") && len(t.Args) == 1 }); kt != nil {
+			id := kt.Args[0].LooseString()
+			for fr := ev.Fr; fr != nil && !idKeyChain; fr = fr.Parent {
+				n, same := 0, 0
+				for _, ret := range returnsOf(fr.Fn) {
+					if len(ret.Results) == 0 || isFailureReturn(ret) {
+						continue
+					}
+					if sl, isSl := ret.Results[0].Type().Underlying().(*types.Slice); !isSl || !types.Identical(sl.Elem(), types.Typ[types.Byte]) {
+						continue
+					}
+					n++
+					if w.ts.Of(ret.Results[0], fr).LooseString() == id {
+						same++
+					}
+				}
+				if n > 0 {
+					idKeyChain = same == n
+					break // the innermost function that hands an id back decides
+				}
+			}
+		}
 	})
+	if idKeySeen {
+		r.check(idKeyLocal || idKeyChain, "id-is-key", "0x01", idKeyPos, "the function returns the very id the stored key was built from", "the id returned by "+idKeyFn+" is not the value used to build the stored key")
+	}
 	// ---------------- the whole counter enters the id
 	{
 		getters := map[*ssa.Function]bool{}
